@@ -34,6 +34,8 @@ type PropSpec struct {
 	Assumptions []string
 	QuickSecs   int
 	ThoroughSec int
+	LevelText   string
+	LevelNote   string
 }
 
 type knownFinding struct {
